@@ -884,6 +884,11 @@ func (p *Prog) directEffects(f *ssa.Function) []Effect {
 				if !ok && isAtomicWrite(name) {
 					idxs, ok, atomicW = []int{0}, true, true
 				}
+				if !ok && (strings.HasPrefix(name, "(*math/rand.Rand).") || strings.HasPrefix(name, "(*math/rand/v2.Rand).")) {
+					// every method of a generator advances its state; unlike the package-level functions a *rand.Rand is
+					// not safe for concurrent use
+					idxs, ok = []int{0}, true
+				}
 				if ok {
 					args := callArgs(cc)
 					for _, i := range idxs {
